@@ -38,12 +38,15 @@ pub struct TaskSpec {
     pub n: u64,
     pub req: bool,
     pub many: bool,
+    /// park at the app-level gate "app.task.gate" between the first and the second event
+    pub gate: bool,
 }
 
 #[derive(Clone, Debug, PartialEq)]
 pub enum Ev {
     /// event given to process_event: code `d`, update returns `Command::all` of these tasks
-    Go { d: u64, tasks: Vec<TaskSpec> },
+    /// `gate`: update parks at the app-level gate "app.update.gate" while it holds the model
+    Go { d: u64, tasks: Vec<TaskSpec>, gate: bool },
     /// the `i`-th event sent by task `k`
     E(u64, u64),
 }
@@ -54,6 +57,14 @@ pub fn enc(e: &Ev) -> u64 {
         Ev::E(k, i) => 1000 + k * 100 + i,
     }
 }
+
+/// every event passed to update, pushed on entry (readable while a thread sits inside update)
+static SHADOW: Mutex<Vec<u64>> = Mutex::new(Vec::new());
+
+/// the app-level gates: none of them is a hook in the crux source
+pub const PARK_G: &[&str] = &["app.update.gate", "app.view.gate", "app.task.gate"];
+/// the resolving thread is held right after it notified the executor (inside TaskWaker::wake_by_ref)
+pub const PARK_W: &[&str] = &["qe.wake"];
 
 #[derive(Default)]
 pub struct App3;
@@ -74,6 +85,9 @@ fn task_command(t: TaskSpec) -> Command<Eff, Ev> {
             ctl::note("emit.effect", k);
             let _v = ctx.request_from_shell(Op(k)).await;
             for i in 0..t.n {
+                if t.gate && i == 1 {
+                    ctl::point("app.task.gate", k);
+                }
                 ctl::note("emit.event", 1000 + k * 100 + i);
                 ctx.send_event(Ev::E(k, i));
             }
@@ -99,9 +113,14 @@ impl crux_core::App for App3 {
 
     fn update(&self, event: Ev, model: &mut Model3, _caps: &()) -> Command<Eff, Ev> {
         model.log.push(enc(&event));
+        SHADOW.lock().unwrap().push(enc(&event));
         ctl::note("app.apply", enc(&event));
         match event {
-            Ev::Go { tasks, .. } => {
+            Ev::Go { tasks, gate, d } => {
+                if gate {
+                    // an app-level gate: the thread parks here holding the model write lock
+                    ctl::point("app.update.gate", d);
+                }
                 if tasks.is_empty() {
                     Command::done()
                 } else {
@@ -110,13 +129,15 @@ impl crux_core::App for App3 {
             }
             // an event of a task numbered 50 or above makes update ask the shell for something:
             // an effect that is sent from inside the event loop of Core::process
-            Ev::E(k, i) if k >= 50 => task_command(TaskSpec { task: 5000 + k * 10 + i, n: 0, req: true, many: false }),
+            Ev::E(k, i) if k >= 50 => task_command(TaskSpec { task: 5000 + k * 10 + i, n: 0, req: true, many: false, gate: false }),
             Ev::E(..) => Command::done(),
         }
     }
 
     fn view(&self, model: &Model3) -> Vec<u64> {
         ctl::note("app.view", model.log.len() as u64);
+        // an app-level gate: the thread parks here holding the model read lock
+        ctl::point("app.view.gate", model.log.len() as u64);
         model.log.clone()
     }
 }
@@ -150,6 +171,22 @@ pub struct Inst {
     resolved_ok: Arc<Mutex<BTreeMap<u64, u64>>>,
     views: Arc<Mutex<Vec<Vec<u64>>>>,
     pub setup_trace: Vec<TEv>,
+    /// (events sent, events applied, events queued) at the decision points of a gated run
+    pub samples: Mutex<Vec<(u64, u64, u64)>>,
+}
+
+/// Sample the conservation invariant of the event channel (C08_event_order, lengths): called when
+/// every thread is parked, finished or blocked. Skipped while a thread is parked inside a task poll
+/// (an event it has sent is then still on its way through the command to the core's channel).
+pub fn observe(inst: &Inst) {
+    let n = inst.sc.threads.len();
+    if (0..n).any(|t| ctl::last_event(t) == Some("app.task.gate")) {
+        return;
+    }
+    let sent = inst.setup_trace.iter().filter(|e| e.name == "emit.event").count() + ctl::count_events("emit.event");
+    let applied = SHADOW.lock().unwrap().iter().filter(|v| **v >= 1000).count();
+    let queued = inst.core.verif_queue_lens().2;
+    inst.samples.lock().unwrap().push((sent as u64, applied as u64, queued as u64));
 }
 
 fn do_call(core: &Core<App3>, reqs: &Reqs, returned: &Mutex<Vec<(usize, u64)>>, resolved_ok: &Mutex<BTreeMap<u64, u64>>, views: &Mutex<Vec<Vec<u64>>>, who: usize, c: &Call) {
@@ -208,7 +245,9 @@ pub fn make(sc: &Scenario) -> (Inst, Vec<Box<dyn FnOnce() + Send + 'static>>) {
         resolved_ok: Arc::new(Mutex::new(BTreeMap::new())),
         views: Arc::new(Mutex::new(Vec::new())),
         setup_trace: Vec::new(),
+        samples: Mutex::new(Vec::new()),
     };
+    SHADOW.lock().unwrap().clear();
     let ((), tr) = ctl::record_as(99, || {
         for c in &sc.setup {
             do_call(&inst.core, &inst.reqs, &inst.returned, &inst.resolved_ok, &inst.views, usize::MAX, c);
@@ -239,6 +278,7 @@ pub struct Obs {
     pub directs: Vec<u64>,
     pub probe_effects: usize,
     pub probes_ok: bool,
+    pub samples: Vec<(u64, u64, u64)>,
 }
 
 fn all_calls(sc: &Scenario) -> Vec<Call> {
@@ -255,7 +295,7 @@ pub fn finish(inst: &Inst) -> Obs {
     let mut specs: Vec<TaskSpec> = Vec::new();
     let mut directs = Vec::new();
     for c in &calls {
-        if let Call::Event(Ev::Go { d, tasks }) = c {
+        if let Call::Event(Ev::Go { d, tasks, .. }) = c {
             directs.push(*d);
             specs.extend(tasks.iter().cloned());
         }
@@ -279,7 +319,7 @@ pub fn finish(inst: &Inst) -> Obs {
     // probe: a no-op event must return nothing and must find nothing left to do; every live stream
     // must still accept a resolution and deliver it
     let before = inst.core.view().len();
-    let probe = inst.core.process_event(Ev::Go { d: 999, tasks: vec![] });
+    let probe = inst.core.process_event(Ev::Go { d: 999, tasks: vec![], gate: false });
     let mut probes_ok = inst.core.view().len() == before + 1;
     let dropped: Vec<u64> = calls.iter().filter_map(|c| if let Call::DropReq { task } = c { Some(*task) } else { None }).collect();
     for s in specs.iter().filter(|s| s.req && s.many && !dropped.contains(&s.task)) {
@@ -296,7 +336,7 @@ pub fn finish(inst: &Inst) -> Obs {
             None => probes_ok = false,
         }
     }
-    Obs { log, views, lens, returned, expected_effects, sent, directs, probe_effects: probe.len(), probes_ok }
+    Obs { log, views, lens, returned, expected_effects, sent, directs, probe_effects: probe.len(), probes_ok, samples: inst.samples.lock().unwrap().clone() }
 }
 
 fn dec_ev(v: u64) -> String {
@@ -433,7 +473,7 @@ pub fn case_json(proto: &str, sc: &Scenario, setup_trace: &[TEv], out: &RunOutco
     let returned: Vec<String> = obs.returned.iter().map(|(t, e)| format!("[{},{}]", if *t == usize::MAX { 99 } else { *t }, e)).collect();
     let sent: Vec<String> = obs.sent.iter().map(|(k, n)| format!("[{},{}]", k, n)).collect();
     format!(
-        "{{\"proto\":\"{}\",\"scen\":\"{}\",\"tag\":\"{}\",\"sched\":{:?},\"feasible\":{},\"hung\":{},\"panic\":{},\"p3labels\":\"[{}]\",\"p1labels\":\"[{}]\",\"log\":{:?},\"views\":[{}],\"lens\":[{},{},{},{}],\"returned\":[{}],\"expected_effects\":{:?},\"sent\":[{}],\"directs\":{:?},\"probe_effects\":{},\"probes_ok\":{},\"trace\":{}}}",
+        "{{\"proto\":\"{}\",\"scen\":\"{}\",\"tag\":\"{}\",\"sched\":{:?},\"feasible\":{},\"hung\":{},\"panic\":{},\"p3labels\":\"[{}]\",\"p1labels\":\"[{}]\",\"log\":{:?},\"views\":[{}],\"lens\":[{},{},{},{}],\"returned\":[{}],\"expected_effects\":{:?},\"sent\":[{}],\"directs\":{:?},\"probe_effects\":{},\"probes_ok\":{},\"samples\":{:?},\"trace\":{}}}",
         proto,
         sc.name,
         tag,
@@ -455,6 +495,7 @@ pub fn case_json(proto: &str, sc: &Scenario, setup_trace: &[TEv], out: &RunOutco
         obs.directs,
         obs.probe_effects,
         obs.probes_ok,
+        obs.samples.iter().map(|(a, b, c)| vec![*a, *b, *c]).collect::<Vec<_>>(),
         super::p2::fmt_trace(&out.trace)
     )
 }
